@@ -44,7 +44,7 @@ def run(ctx):
                     filt.report_disagreement(ctx, "negated triple: run_pipeline differs from the specification", db, cmds, drv)
         ctx.cov["exhaustive"] = full
         # random stream with overlapping patterns on richer databases
-        n = 500 if ctx.tier == "quick" else 8000
+        n = 500 if ctx.tier == "quick" else 60000
         for i in range(n):
             db = filt.gen_db(rng)
             op = rng.choice(["include", "exclude", "include all", "exclude all"])
